@@ -17,6 +17,24 @@ package compound
 //@ use dlast_range(res(RsiStrategy_Compute))
 //@ use dlast_hold(res(MacdStrategy_Compute), m.MacdStrategy.Macd.IdlePeriod())
 //@ use dlast_hold(res(RsiStrategy_Compute), m.RsiStrategy.Rsi.IdlePeriod())
+// unit invariance, conditional on that of the two members on these very calls (each is proved for its own Compute -
+// MacdStrategy.Compute and RsiStrategy.Compute, rel:price / rel:volume - under its non-degeneracy assumptions); what is
+// proved here is that the compound hands both members the scaled snapshots and combines their standing
+// recommendations without looking at a price or a volume itself
+//@ rel[C18] "price" param lam real
+//@ rel[C18] "price" assume lam > 0 && len(second(snapshots)) == len(snapshots) && (forall k :: 0 <= k && k < len(snapshots) ==> pscaled(second(snapshots)[k], snapshots[k], lam))
+//@ rel[C18] "price" assume (len(second(arg(MacdStrategy_Compute, 0, 0))) == len(arg(MacdStrategy_Compute, 0, 0)) && (forall k :: 0 <= k && k < len(arg(MacdStrategy_Compute, 0, 0)) ==> pscaled(second(arg(MacdStrategy_Compute, 0, 0))[k], arg(MacdStrategy_Compute, 0, 0)[k], lam))) ==> (len(second(res(MacdStrategy_Compute, 0))) == len(res(MacdStrategy_Compute, 0)) && (forall k :: 0 <= k && k < len(res(MacdStrategy_Compute, 0)) ==> second(res(MacdStrategy_Compute, 0))[k] == res(MacdStrategy_Compute, 0)[k]))
+//@ rel[C18] "price" assume (len(second(arg(RsiStrategy_Compute, 0, 0))) == len(arg(RsiStrategy_Compute, 0, 0)) && (forall k :: 0 <= k && k < len(arg(RsiStrategy_Compute, 0, 0)) ==> pscaled(second(arg(RsiStrategy_Compute, 0, 0))[k], arg(RsiStrategy_Compute, 0, 0)[k], lam))) ==> (len(second(res(RsiStrategy_Compute, 0))) == len(res(RsiStrategy_Compute, 0)) && (forall k :: 0 <= k && k < len(res(RsiStrategy_Compute, 0)) ==> second(res(RsiStrategy_Compute, 0))[k] == res(RsiStrategy_Compute, 0)[k]))
+//@ rel[C18] "price" use dlast_cong(res(MacdStrategy_Compute, 0), second(res(MacdStrategy_Compute, 0)), _)
+//@ rel[C18] "price" use dlast_cong(res(RsiStrategy_Compute, 0), second(res(RsiStrategy_Compute, 0)), _)
+//@ rel[C18] "price" ensures len(second(result)) == len(result) && (forall k :: 0 <= k && k < len(result) ==> second(result)[k] == result[k])
+//@ rel[C18] "volume" param mu real
+//@ rel[C18] "volume" assume mu > 0 && len(second(snapshots)) == len(snapshots) && (forall k :: 0 <= k && k < len(snapshots) ==> vscaled(second(snapshots)[k], snapshots[k], mu))
+//@ rel[C18] "volume" assume (len(second(arg(MacdStrategy_Compute, 0, 0))) == len(arg(MacdStrategy_Compute, 0, 0)) && (forall k :: 0 <= k && k < len(arg(MacdStrategy_Compute, 0, 0)) ==> vscaled(second(arg(MacdStrategy_Compute, 0, 0))[k], arg(MacdStrategy_Compute, 0, 0)[k], mu))) ==> (len(second(res(MacdStrategy_Compute, 0))) == len(res(MacdStrategy_Compute, 0)) && (forall k :: 0 <= k && k < len(res(MacdStrategy_Compute, 0)) ==> second(res(MacdStrategy_Compute, 0))[k] == res(MacdStrategy_Compute, 0)[k]))
+//@ rel[C18] "volume" assume (len(second(arg(RsiStrategy_Compute, 0, 0))) == len(arg(RsiStrategy_Compute, 0, 0)) && (forall k :: 0 <= k && k < len(arg(RsiStrategy_Compute, 0, 0)) ==> vscaled(second(arg(RsiStrategy_Compute, 0, 0))[k], arg(RsiStrategy_Compute, 0, 0)[k], mu))) ==> (len(second(res(RsiStrategy_Compute, 0))) == len(res(RsiStrategy_Compute, 0)) && (forall k :: 0 <= k && k < len(res(RsiStrategy_Compute, 0)) ==> second(res(RsiStrategy_Compute, 0))[k] == res(RsiStrategy_Compute, 0)[k]))
+//@ rel[C18] "volume" use dlast_cong(res(MacdStrategy_Compute, 0), second(res(MacdStrategy_Compute, 0)), _)
+//@ rel[C18] "volume" use dlast_cong(res(RsiStrategy_Compute, 0), second(res(RsiStrategy_Compute, 0)), _)
+//@ rel[C18] "volume" ensures len(second(result)) == len(result) && (forall k :: 0 <= k && k < len(result) ==> second(result)[k] == result[k])
 
 // ---- reports (C14): every column has one value per date row; rows carry that date's close, annotation, outcome ----
 //@ func MacdRsiStrategy.Report
